@@ -802,7 +802,7 @@ Proof.
     assert (E2 : getl s2 l = take_lk s l t <| lpq := q' |> <| lwt := w |>).
     { destruct (upd_lk s l (take_lk s l t <| lpq := q' |> <| lwt := w |>) t (take_oh s l t))
         as [[_ E]|(Hge & _)]; [exact E|lia]. }
-    rewrite E2. cbn [llocked take_lk]. cbn.
+    rewrite E2. cbn [llocked take_lk]. cbn. rewrite Nat.eqb_refl.
     split; [|split; [auto|]].
     + apply Hfin. apply lstep_upd; [exact I2|reflexivity|].
       intros g Hg. cbn in Hg. destruct (qwf_remove _ _ _ _ (iB1 I l) Er) as (_ & Hp & _).
@@ -823,19 +823,25 @@ Proof.
     { apply lstep_upd; [exact I2|reflexivity|].
       intros g Hg. cbn in Hg. destruct (qwf_remove _ _ _ _ (iB1 I l) Er) as (_ & Hp & _).
       eapply Permutation_in; [apply Permutation_sym; exact Hp|]. now right. }
+    assert (P3 : pstep s2 (match lowner (getl s2 l) with
+                           | Some o => if Nat.eqb o t then s2 else propagate_priority s2 o
+                           | None => s2 end)).
+    { destruct (lowner (getl s2 l)) as [o|]; [|now apply pstep_refl].
+      destruct (Nat.eqb o t); [now apply pstep_refl|now apply pstep_propagate_priority]. }
     split; [|split; [intros; discriminate|]]; cbn [fst].
-    + apply Hfin. rewrite E2. cbn [llocked]. 
-      change (llocked (getl s l <| lpq := q' |> <| lwt := w |>)) with (llocked (getl s l)).
-      destruct (llocked (getl s l)) eqn:Elk; [exact L2|].
+    + apply Hfin.
+      replace (llocked (getl s2 l)) with (llocked (getl s l)) by (rewrite E2; reflexivity).
+      destruct (llocked (getl s l)) eqn:Elk; [eapply lstep_trans; [exact L2|apply P3]|].
       eapply lstep_trans; [exact L2|]. apply lstep_wake; [exact I2|].
       rewrite E2. change (lowner (getl s l <| lpq := q' |> <| lwt := w |>)) with (lowner (getl s l)).
       destruct (lowner (getl s l)) eqn:Ho; auto.
       assert (lowner (getl s l) <> None) as Hn by congruence.
       apply (iA1 I l Hk) in Hn. congruence.
-    + intros H4. apply Hfin4. rewrite E2. cbn [llocked].
-      change (llocked (getl s l <| lpq := q' |> <| lwt := w |>)) with (llocked (getl s l)).
+    + intros H4. apply Hfin4.
+      replace (llocked (getl s2 l)) with (llocked (getl s l)) by (rewrite E2; reflexivity).
       destruct (llocked (getl s l)) eqn:Elk.
-      * apply WF4_upd; auto. apply wf4_at_locked. fold s2. rewrite E2. exact Elk.
+      * apply (proj2 (proj2 P3)).
+        apply WF4_upd; auto. apply wf4_at_locked. fold s2. rewrite E2. exact Elk.
       * apply WF4_wake; [exact I2|]. intros l' Hne. apply wf4_at_upd_other; auto.
 Qed.
 
